@@ -938,7 +938,8 @@ MANIFEST = {
             "sequences over a reduced alphabet; each sender stream is judged by an independent RFC "
             "6455 parser (+ independent zlib inflate) and replayed to the real peer under whole / "
             "octet-at-a-time / every frame-boundary cut / cut pairs; handshake-coalesced frames and "
-            "two-direction interleavings (deviation bound 2, thorough 3) are explored separately.",
+            "two-direction interleavings (deviation bound 2, thorough 3) are explored separately."
+            " Real pairs whose permessage-deflate parameters differ per direction (8 offer/accept layouts x fragment sizes x read chunkings, messages needing back references over more than 2^9..2^12 octets and across messages).",
     "note": "Trusted: ref/ws_frames.py, env transports; payload contents are patterns; lengths up to "
             "70000; the receiver stream is delivered to a fresh pair per segmentation after checking "
             "that the sender is deterministic.",
